@@ -150,6 +150,20 @@ func (env *specEnv) lvalue(x SExpr) []frameItem {
 			hn, hs := env.fieldHeapOf(x.Args[0])
 			return []frameItem{{Heap: hn, HeapSort: hs, Src: src}}
 		}
+		if id, ok := x.Fn.(*SIdent); ok && id.Name == "mapsof" {
+			// mapsof(x.f): the content of every map of the type of x.f (for lock-protected map fields, whose current
+			// value cannot be named in an entry-state frame)
+			v := env.eval(x.Args[0])
+			mt, ok := v.GT.Underlying().(*types.Map)
+			if !ok {
+				env.fail("mapsof(%s): not a map", specString(x.Args[0]))
+			}
+			var items []frameItem
+			for _, h := range e.mapHeaps(mt) {
+				items = append(items, frameItem{Heap: h[0], HeapSort: h[1], Src: src})
+			}
+			return items
+		}
 		if id, ok := x.Fn.(*SIdent); ok && id.Name == "mapof" {
 			v := env.eval(x.Args[0])
 			mt, ok := v.GT.Underlying().(*types.Map)
@@ -1307,12 +1321,23 @@ func (e *Enc) execSelect(in *ssa.Select) {
 	e.assume(tAnd(tLe(lo, idx), tLt(idx, tInt(int64(n)))))
 	tup = append(tup, Val{T: idx})
 	tup = append(tup, Val{T: e.fresh("select_ok", "Bool")})
-	for _, st := range in.States {
+	for i, st := range in.States {
 		if st.Dir == types.RecvOnly {
 			et := st.Chan.Type().Underlying().(*types.Chan).Elem()
 			c := e.fresh("select_recv", e.sortOf(et))
 			e.assume(e.typeFacts(c, et, e.cur))
+			// message-passing rule for `sent` clauses: only the value of the chosen case was received
+			saved := e.curReach
+			e.curReach = tAnd(saved, tEq(idx, tInt(int64(i))))
+			e.sentClauses(et, c, false, in.Pos())
+			e.curReach = saved
 			tup = append(tup, Val{T: c})
+		} else if st.Send != nil {
+			// a send case: if chosen, this value is sent
+			saved := e.curReach
+			e.curReach = tAnd(saved, tEq(idx, tInt(int64(i))))
+			e.sentClauses(st.Send.Type(), e.val(st.Send).T, true, in.Pos())
+			e.curReach = saved
 		}
 	}
 	e.vals[in] = Val{Tup: tup}
@@ -1365,6 +1390,7 @@ func (e *Enc) execRecv(in *ssa.UnOp) {
 	} else {
 		e.vals[in] = Val{T: c}
 	}
+	e.sentClauses(et, c, false, in.Pos())
 	e.applyAts("recv", "", in.Pos(), ra, nil)
 }
 
